@@ -20,6 +20,7 @@ PROPS = {
     'C14': dict(
         title='Field arithmetic is exact modular arithmetic on every representation',
         design_ref='DESIGN.md section 4 / C14',
+        bounded=[('field', ['c14_'])],
         vspecs=['contracts/C14/gl_core.vspec', 'contracts/C14/gl_ext.vspec'],
         level_text='Unbounded deductive proof (Verus/Z3) that each base-field kernel extracted from field/src/goldilocks_field.rs returns the '
                    'mathematically correct residue for every 64/96/128/160-bit representation, with every unchecked `assume`, overflow, '
@@ -31,6 +32,45 @@ PROPS = {
             'AVX2/AVX-512 packed fields (field/src/arch/x86_64/*): not compiled in the tested build; intrinsics outside both verifiers',
             'secp256k1 BigUint fields; sqrt / kth_root (BigUint)',
         ],
+    ),
+    'C07': dict(
+        title='Every value a gate computes is pinned by that gate\'s constraints',
+        design_ref='DESIGN.md section 4 / C07',
+        bounded=[('plonky2', ['c07_'])],
+        vspecs=['contracts/C07/arithmetic_base.vspec', 'contracts/C07/constant.vspec'],
+        level_text='Unbounded deductive proof (Verus/Z3), for ArithmeticGate and ConstantGate in every parameterisation (symbolic num_ops / num_consts) over an '
+                   'abstract commutative ring, that the extension-field, packed/base and in-circuit evaluators all return ONE ring-generic specification '
+                   'expression per constraint, exactly num_constraints() of them, with all wire indexing in bounds; plus the pinning lemma (constraint zero '
+                   '<==> output wire equals the computed value). The other gates are covered by a bounded stand-in only (labelled bounded).',
+        level_note='Trusted: Verus+Z3; abstract ring for scalar/extension/packed fields (T6); CircuitBuilder arithmetic contracts (T10d). Other gates '
+                   '(BaseSum, Exponentiation, RandomAccess, Reducing*, MulExtension, ArithmeticExtension, Poseidon*, CosetInterpolation, Lookup*) and '
+                   'eval_filtered/compute_filter: bounded harness only.',
+        remainder=['all gates other than ArithmeticGate and ConstantGate (bounded harness only)', 'generators run_once (closures over the witness)', 'eval_filtered / compute_filter'],
+    ),
+    'C09': dict(
+        title='STARK proofs are accepted exactly for traces that satisfy the constraints',
+        design_ref='DESIGN.md section 4 / C09',
+        bounded=[('starky', ['c09_'])],
+        vspecs=['contracts/C09/constraint_consumer.vspec'],
+        level_text='Unbounded deductive proof (Verus/Z3) that ConstraintConsumer accumulates acc_i*alpha_i + c*filter with filter = 1, z_last, L_first, L_last for '
+                   'constraint / constraint_transition / constraint_first_row / constraint_last_row respectively (a swapped or missing filter fails the '
+                   'postcondition). The STARK verifier/prover themselves (iterator pipelines) are covered by a bounded stand-in only.',
+        level_note='Trusted: Verus+Z3; abstract ring for packed fields; lane-wise scalar multiplication uninterpreted. verify_stark_proof_with_challenges, '
+                   'compute_quotient_polys, eval_vanishing_poly: bounded harness only (flat_map/chunks/Option plumbing outside the Verus subset).',
+        remainder=['starky verifier / prover / vanishing polynomial (bounded harness only)', 'eval_l_0_and_l_last'],
+    ),
+    'C15': dict(
+        title='Transforms and polynomial algebra agree with their definitions',
+        design_ref='DESIGN.md section 4 / C15',
+        bounded=[('field', ['c15_']), ('util', ['c15_'])],
+        vspecs=['contracts/C15/util_log2.vspec'],
+        level_text='Unbounded deductive proof (Verus/Z3) of log2_strict (result r with n == 2^r for every power of two; its internal assertion and its unchecked '
+                   '`assume` are discharged). FFT == direct evaluation, inverse/coset variants, zero-tail and root-table options, multiplication, division, '
+                   'interpolation, bit reversal and transposes are covered by a bounded stand-in only (roots-of-unity developments are days of proof '
+                   'engineering; see DESIGN.md).',
+        level_note='Trusted: Verus+Z3; usize::trailing_zeros std semantics. Everything except log2_strict is BOUNDED evidence (sizes 1..256, random and boundary '
+                   'operands), never counted as proof.',
+        remainder=['fft / ifft / coset variants / lde', 'polynomial mul / div_rem / divide_by_linear / interpolate', 'reverse_index_bits*, transpose_* (unsafe code)'],
     ),
     'C12': dict(
         title='Merkle commitments open only to the committed leaf at the committed position',
